@@ -72,6 +72,7 @@ class Ctx:
         self.skipped = collections.Counter()
         self.viol = []
         self.nviol = 0
+        self.vclauses = collections.Counter()
         self.cases = 0
         self.nontrivial = 0
         self.transitions = 0
@@ -115,6 +116,7 @@ class Ctx:
         if ok:
             return True
         self.nviol += 1
+        self.vclauses[clause + ("|" + jdump(tags) if tags else "")] += 1
         if len(self.viol) < MAX_VIOL_PER_BLOCK:
             self.viol.append(
                 {
@@ -228,6 +230,9 @@ def explore(pid, tier, seed, jobs=None):
     if hasattr(mod, "setup"):
         mod.setup(tier, seed)
     blocks = list(mod.blocks(tier, seed))
+    flt = os.environ.get("MCX_BLOCK_FILTER")
+    if flt:  # debugging aid only
+        blocks = [b for b in blocks if flt in jdump(b)]
     keys = [jdump(b) for b in blocks]
     assert len(set(keys)) == len(keys), "block descriptors must be pairwise distinct"
     jobs = jobs or int(os.environ.get("MCX_JOBS", "0")) or min(16, os.cpu_count() or 1)
@@ -244,6 +249,7 @@ def explore(pid, tier, seed, jobs=None):
     total.block_walls = []
     for ctx in results:
         total.clauses.update(ctx.clauses)
+        total.vclauses.update(ctx.vclauses)
         total.counters.update(ctx.counters)
         total.skipped.update(ctx.skipped)
         total.viol.extend(ctx.viol)
@@ -296,6 +302,8 @@ def report(mod, total, tier, seed):
     if unmatched and len(unmatched) > len(written):
         print(f"  ... {n_unmatched_total} violating evaluations in total; replay files written for the first 3 per clause")
 
+    if total.vclauses:
+        print("violations by clause|tags:", jdump(dict(total.vclauses)))
     # non-vacuity self-test
     vac = []
     if hasattr(mod, "expected_positive"):
